@@ -22,6 +22,8 @@ CONSTANTS Ecus,        \* set of ECU names
           RxDeltas,    \* reception time deltas between consecutive messages
           TsVals,      \* timestamp alphabet
           Kinds,       \* subset of {"norm", "ctrl", "nots"}: normal / control request / no timestamp in std header
+          IdxDeltas,   \* increments of the messages' index field ({1} = consecutive; 100001 = a jump that makes the regular
+                       \* "every 100 000 messages" refresh of the marked lifecycles due - the code keys it on msg.index)
           FixMerged
 
 BufDelay == 60
@@ -31,11 +33,14 @@ OverlapWin == 2
 OverlapMinLen == 10
 CheckPeriod == 1
 RxBase == 1000
+RegularRefresh == 100000     \* check_regular_refresh: last_regular_refresh_index + 100_000 < last_msg_index
 
 VARIABLES inputs, n, rxNow, ecuLcs, bufMsgs, bufLcs, nextCheck, published, pendingEmpty, toRefresh, nextId,
-          delivered, done, panic
+          delivered, done, panic,
+          nextIdx,       \* index field the next message would carry with increment 1
+          lastRegular    \* last_regular_refresh_index
 vars == <<inputs, n, rxNow, ecuLcs, bufMsgs, bufLcs, nextCheck, published, pendingEmpty, toRefresh, nextId,
-          delivered, done, panic>>
+          delivered, done, panic, nextIdx, lastRegular>>
 
 NoRes == [id |-> 0, maxTs |-> 0, start |-> 0]
 Max(a, b) == IF a > b THEN a ELSE b
@@ -137,7 +142,7 @@ Perms(S) == {p \in [1..Cardinality(S) -> S] : \A i, j \in 1..Cardinality(S) : i 
 Init ==
   /\ inputs = <<>> /\ n = 0 /\ rxNow = RxBase /\ ecuLcs = [e \in Ecus |-> <<>>] /\ bufMsgs = <<>> /\ bufLcs = {}
   /\ nextCheck = 0 /\ published = <<>> /\ pendingEmpty = {} /\ toRefresh = {} /\ nextId = 1 /\ delivered = <<>>
-  /\ done = FALSE /\ panic = FALSE
+  /\ done = FALSE /\ panic = FALSE /\ nextIdx = 0 /\ lastRegular = 0
 
 Step(m, order) ==
   LET L == ecuLcs[m.ecu]
@@ -179,8 +184,8 @@ Step(m, order) ==
       cur == [idx |-> n, ecu |-> m.ecu, lc |-> p1.assigned]
   IN
   IF p1.pan THEN /\ panic' = TRUE /\ done' = TRUE /\ inputs' = Append(inputs, m)
-                 /\ UNCHANGED <<ecuLcs, bufMsgs, bufLcs, nextCheck, published, pendingEmpty, toRefresh, nextId, delivered>>
-                 /\ n' = n + 1 /\ rxNow' = m.rx
+                 /\ UNCHANGED <<ecuLcs, bufMsgs, bufLcs, nextCheck, published, pendingEmpty, toRefresh, nextId, delivered, lastRegular>>
+                 /\ n' = n + 1 /\ rxNow' = m.rx /\ nextIdx' = m.ix + 1
   ELSE
   /\ inputs' = Append(inputs, m)
   /\ n' = n + 1 /\ rxNow' = m.rx
@@ -188,11 +193,24 @@ Step(m, order) ==
   /\ nextId' = p1.nid
   /\ nextCheck' = (IF doCheck THEN m.rx + CheckPeriod ELSE nextCheck)
   /\ bufLcs' = p3.bl
-  /\ published' = p3.pub
-  /\ pendingEmpty' = p3.pe
-  \* phase 4: enqueue while anything is buffered, else forward directly ("send 3")
-  /\ IF p3.bl # {} THEN /\ bufMsgs' = Append(p3.q, cur) /\ delivered' = p3.out /\ toRefresh' = p3.mark
-                   ELSE /\ bufMsgs' = p3.q /\ delivered' = Append(p3.out, Deliv(p3.pub, cur)) /\ toRefresh' = p3.mark \cup {cur.lc}
+  /\ nextIdx' = m.ix + 1
+  \* phase 4: enqueue while anything is buffered, else forward directly ("send 3"); only the direct path marks the lifecycle and
+  \* runs the regular refresh (publish every marked lifecycle that is still in the per-ECU lists, refresh, clear the marks)
+  /\ IF p3.bl # {}
+     THEN /\ bufMsgs' = Append(p3.q, cur) /\ delivered' = p3.out /\ toRefresh' = p3.mark
+          /\ published' = p3.pub /\ pendingEmpty' = p3.pe /\ UNCHANGED lastRegular
+     ELSE LET mark == p3.mark \cup {cur.lc}
+              due == lastRegular + RegularRefresh < m.ix
+              live == UNION {{lcs1[e][i] : i \in 1..Len(lcs1[e])} : e \in Ecus}
+              upd == {lc \in live : lc.id \in mark}
+              pubR == PubDel([i \in DOMAIN p3.pub \cup {lc.id : lc \in upd} |->
+                                IF \E lc \in upd : lc.id = i THEN Snap(CHOOSE lc \in upd : lc.id = i) ELSE p3.pub[i]], p3.pe)
+          IN /\ bufMsgs' = p3.q
+             /\ published' = (IF due THEN pubR ELSE p3.pub)
+             /\ pendingEmpty' = (IF due THEN {} ELSE p3.pe)
+             /\ toRefresh' = (IF due THEN {} ELSE mark)
+             /\ lastRegular' = (IF due THEN m.ix ELSE lastRegular)
+             /\ delivered' = Append(p3.out, Deliv(IF due THEN pubR ELSE p3.pub, cur))
   /\ UNCHANGED <<done, panic>>
 
 AllLcs == UNION {{ecuLcs[e][i] : i \in 1..Len(ecuLcs[e])} : e \in Ecus}
@@ -207,9 +225,10 @@ Finish ==
          pub2 == [i \in DOMAIN pub1 |-> IF i \in f.mark /\ (\E lc \in AllLcs : lc.id = i) THEN Snap(LcById(i)) ELSE pub1[i]]
      IN /\ delivered' = f.out /\ published' = pub2 /\ toRefresh' = {}
   /\ bufMsgs' = <<>> /\ bufLcs' = {} /\ pendingEmpty' = {} /\ done' = TRUE
-  /\ UNCHANGED <<inputs, n, rxNow, ecuLcs, nextCheck, nextId, panic>>
+  /\ UNCHANGED <<inputs, n, rxNow, ecuLcs, nextCheck, nextId, panic, nextIdx, lastRegular>>
 
-Msgs == {m \in [ecu : Ecus, rx : {rxNow + d : d \in RxDeltas}, ts : TsVals, kind : Kinds] : m.kind = "nots" => m.ts = 0}
+Msgs == {m \in [ecu : Ecus, rx : {rxNow + d : d \in RxDeltas}, ts : TsVals, kind : Kinds, ix : {nextIdx + d - 1 : d \in IdxDeltas}] :
+           m.kind = "nots" => m.ts = 0}
 
 Next ==
   \/ /\ ~done /\ n < MaxMsgs
@@ -239,7 +258,8 @@ C07 == done /\ ~panic => /\ (\A id \in DOMAIN published : published[id].nr = Cou
 RelLc(lc) == [lc EXCEPT !.start = rxNow - @, !.lastRx = rxNow - @, !.res = IF @.id = 0 THEN @ ELSE [@ EXCEPT !.start = rxNow - @]]
 RelPub == [i \in DOMAIN published |-> [published[i] EXCEPT !.start = rxNow - @, !.end = rxNow - @]]
 View == <<n, [e \in Ecus |-> [i \in 1..Len(ecuLcs[e]) |-> RelLc(ecuLcs[e][i])]], bufMsgs, bufLcs,
-          IF nextCheck > rxNow THEN nextCheck - rxNow ELSE 0, RelPub, pendingEmpty, toRefresh, nextId, delivered, done, panic>>
+          IF nextCheck > rxNow THEN nextCheck - rxNow ELSE 0, RelPub, pendingEmpty, toRefresh, nextId, delivered, done, panic,
+          IF nextIdx > lastRegular + RegularRefresh THEN RegularRefresh + 1 ELSE nextIdx - lastRegular>>
 
 \* scenario emission: one line per terminal behaviour with the predicted observables and the contract verdicts
 PubList == {[id |-> i, ecu |-> published[i].ecu, nr |-> published[i].nr, start |-> published[i].start,
